@@ -8,6 +8,7 @@ import MinLex.Model.Env
 import MinLex.Model.Alloc
 import MinLex.Model.ParseW
 import MinLex.Model.Iter
+import MinLex.Model.Libm
 open MinLex
 
 def hexVal (c : Char) : Nat :=
@@ -316,6 +317,14 @@ def runCase (E : Env) (line : String) : String :=
         m ++ (if !E.cfg.alloc then " allocs 0" else s!" allocs {parseAllocs E F int frac e}")
       else m
     if validB int frac e then m ++ s!" | S v {hex (specParse F.fmt int frac e)}" else m
+  | "powd" =>
+    (match Libm.powd (parseNat (arg 1)) (parseNat (arg 2)) with
+     | some b => toString b
+     | none => "none")
+  | "powf" =>
+    (match Libm.powf (parseNat (arg 1)) (parseNat (arg 2)) with
+     | some b => toString b
+     | none => "none")
   | "nf" =>
     -- nf <fmt> <int_a> <int_b> <frac_a> <frac_b> <exp>: non-fused iterators (a, None, b, None, ...) through the
     -- iterator-level model; the list-level value of the concatenation is printed after `| L` for comparison
